@@ -201,6 +201,14 @@ def make_index(sel):
         return np.array(idx, dtype=np.int32)
     if form == "tuple":
         return tuple(idx)
+    if form == "0d":
+        return np.array(idx[0], dtype=np.int64)
+    if form == "mask":
+        m = np.zeros(int(sel["n"]), dtype=bool)
+        m[idx] = True
+        return m
+    if form == "slice":
+        return slice(*sel["slice"])
     return list(idx)
 
 
@@ -340,6 +348,8 @@ def judge_step(ctx, case, step, prev, depth):
         obj = prev["res"]
         data = np.asarray(obj.values)
     ctx.hit("sel=" + kind)
+    if sel["kind"] in ("face", "node", "edge"):
+        ctx.hit("index-form=%s:%s" % (sel["kind"], sel.get("form", "list")))
     ctx.hit("via=" + ("uxda:" + case["data"]["centre"] + ":rank%d" % data.ndim if is_da else "grid"))
     ctx.hit(src_kind)
     ctx.hit("history=%d" % len(hist_done))
@@ -826,10 +836,29 @@ def random_selection(rng, g, n_edge):
     nf, nn = int(g.n_face), int(g.n_node)
     if kind in ("face", "node", "edge"):
         n = dict(face=nf, node=nn, edge=n_edge)[kind]
-        style = rng.choice(["scalar", "single", "all", "all-perm", "unsorted", "unsorted", "sorted"])
+        style = rng.choice(["scalar", "single", "all", "all-perm", "unsorted", "unsorted", "sorted", "slice", "slice", "mask"])
+        if style == "slice":
+            # bounded / open-ended / stepped / negative slices, normalised against the length of THE INDEXED dimension
+            for _ in range(20):
+                a = rng.choice([None, rng.randrange(n), rng.randrange(n), -rng.randint(1, n)])
+                b = rng.choice([None, rng.randint(0, n), rng.randint(0, n + 3), -rng.randint(1, n)])
+                c = rng.choice([None, None, 1, 2, 3, -1, -2])
+                index = list(range(n))[slice(a, b, c)]
+                if index:
+                    break
+            else:
+                a, b, c = None, None, None
+                index = list(range(n))
+            if len(index) > 40:
+                a, b, c = (index[0], index[0] + 12, None) if (c or 1) > 0 else (index[0], max(index[0] - 12, 0), c)
+                index = list(range(n))[slice(a, b, c)]
+            return dict(kind=kind, index=index, form="slice", slice=[a, b, c], n=n, style="slice")
+        if style == "mask":
+            index = sorted(rng.sample(range(n), rng.randint(1, max(1, min(n, 12)))))
+            return dict(kind=kind, index=index, form="mask", n=n, style="mask")
         if style in ("scalar", "single"):
             index = [rng.randrange(n)]
-            form = rng.choice(["scalar", "npscalar"]) if style == "scalar" else rng.choice(["list", "array"])
+            form = rng.choice(["scalar", "npscalar", "0d"]) if style == "scalar" else rng.choice(["list", "array"])
         elif style == "all":
             index, form = list(range(n)), rng.choice(["list", "array"])
         elif style == "all-perm":
@@ -1050,6 +1079,38 @@ def exact_lat_cases(ctx):
     return out
 
 
+def index_form_cases(ctx, ux):
+    """every argument form of isel on the node and edge dimensions (and faces), on grids where the three dimension lengths
+    differ in both directions (n_node > n_face: quad patch; n_node < n_face: closed triangulation): slices reaching beyond
+    n_face, stepped, negative, starting beyond n_face, the full slice; masks; 0-d arrays"""
+    rng = ctx.rng
+    out = []
+    for m in (meshes.patch(rng.choice([2, 3]), 2, lon0=rng.choice([-30, 150])), meshes.hull(rng.choice([8, 10]), rng)):
+        g0 = meshes.to_grid(m, ux)
+        sizes = dict(node=int(g0.n_node), edge=int(g0.n_edge), face=int(g0.n_face))
+        base = dict(mesh=m.describe(), table=m.rows(), lon=[float(x) for x in m.lon], lat=[float(x) for x in m.lat], order=[], geo=[],
+                    twin=[], history=[])
+        for dim in ("node", "edge", "face"):
+            n, nf = sizes[dim], sizes["face"]
+            lo = min(nf, n - 1)
+            specs = [[max(0, lo - 2), None, None], [0, None, 3], [-3, None, None], [lo, None, None], [None, None, None],
+                     [None, None, -2], [1, n + 2, 2]]
+            for k, sp in enumerate(specs if dim != "face" else specs[:3]):
+                index = list(range(n))[slice(*sp)]
+                if not index:
+                    continue
+                case = dict(base, sel=dict(kind=dim, index=index, form="slice", slice=sp, n=n, style="slice"),
+                            via="uxda" if k % 3 == 1 else "grid")
+                if case["via"] == "uxda":
+                    case["data"] = dict(centre=dim, lead=[], dtype="float")
+                out.append(case)
+            idx = sorted(rng.sample(range(n), min(n, 3)) + [n - 1])
+            idx = sorted(set(idx))
+            out.append(dict(base, sel=dict(kind=dim, index=idx, form="mask", n=n, style="mask"), via="grid"))
+            out.append(dict(base, sel=dict(kind=dim, index=[n - 1], form="0d", style="scalar"), via="grid"))
+    return out
+
+
 def mpas_cases(ctx):
     f = common.REPO / MPAS
     if not f.exists():
@@ -1119,7 +1180,9 @@ def run(ctx):
                 "history = none / one / random / all of 7 connectivity + 15 geometric variables (+ edge_face_distances, face_areas, bounds) "
                 "materialised in random order, in 30% of the sources with Grid.chunk(random n_node / n_edge / n_face) applied at a random point "
                 "of the history (dask-backed arrays; the un-chunked, un-materialised twin gives the reference); selection = "
-                "face / node / edge indices (scalar, single, all, permuted, unsorted, sorted; list / tuple / int32 / int64 array), bounding box "
+                "face / node / edge indices (scalar, single, all, permuted, unsorted, sorted; int / 0-d array / list / tuple / int32 / int64 "
+                "array / boolean mask / slice — bounded, open-ended, stepped, negative — on ALL THREE dimensions, the selected elements "
+                "being the slice of range(length of THE INDEXED dimension)), bounding box "
                 "(40% antimeridian-spanning) / circle / k-nearest on nodes, face centres, edge centres, constant latitude (35% exactly a "
                 "node's latitude, plus lat-lon grids queried at their node rows and triangle strips touching the parallel by an edge / "
                 "a corner from above and below: JUDGED EXACTLY whenever sin(deg2rad(lat)) as numba computes it and the grid's own node z "
@@ -1144,6 +1207,8 @@ def run(ctx):
             for _ in range(ctx.n(7, 9)):
                 judge(ctx, random_case(ctx, m, ux, thorough_geo=ctx.thorough and ctx.rng.random() < 0.1))
     for c in exact_lat_cases(ctx):
+        judge(ctx, c)
+    for c in index_form_cases(ctx, ux):
         judge(ctx, c)
     for c in mpas_cases(ctx):
         judge(ctx, c)
